@@ -415,9 +415,26 @@ impl<R: Read + Seek> Seek for CompressionLayerReader<'_, R> {
         // Seeking may instantiate a decompressor, and therefore position the
         // inner layer at the end of the asked position's compressed block
         match &self.sizes_info {
-            Some(_sizes_info) => {
+            Some(sizes_info) => {
                 match pos {
                     SeekFrom::Start(pos) => {
+                        let end_pos = sizes_info.max_uncompressed_pos();
+                        if pos > end_pos {
+                            // Seeking past the end is unsupported
+                            return Err(Error::EndOfStream.into());
+                        }
+                        if pos == end_pos {
+                            // End of the stream: there is no block to
+                            // decompress, next reads return 0
+                            let old_state = std::mem::replace(
+                                &mut self.state,
+                                CompressionLayerReaderState::Empty,
+                            );
+                            self.state = CompressionLayerReaderState::Ready(old_state.into_inner());
+                            self.underlayer_pos = pos;
+                            return Ok(pos);
+                        }
+
                         // Find the right block
                         let inside_block = pos % u64::from(UNCOMPRESSED_DATA_SIZE);
                         let rounded_pos = pos - inside_block;
